@@ -169,6 +169,7 @@ CORPUS = [
     "foreach x : l\n  # only a comment\nendforeach\nexecutable('a_rather_long_program_name', 'source1.c', 'source2.c')\n",
     "if a\n  # c1\nelif b\n  # c2\nelse\n  # c3\nendif\nf(aaaaaaaaaaaaaaaaaa, bbbbbbbbbbbbbbbbbbbbbb, cccccccccccccccccccc)\n",
     "foreach k, v : d\n  # first\n  x += v # second\n  # third\nendforeach\ny = g(aaaaaaaaaaaaaaaaaa, bbbbbbbbbbbbbbbbbbbbbb)\n",
+    "n = 'w'\nx = f'hello \\x40n\\x40'\ny = f'\\100n\\100 @n@'\n",
     "x = files(f'b.c', 'a.c')\n", "x = files(f'b@0@.c', '''a.c''', 'c.c')\n", "x = files(\n  'b.c',\n  'a.c' # last\n)\n", "x = (a and # why\n  b)\n",
 ]
 
@@ -220,6 +221,21 @@ def ob_shapes(fn_name, nmax):
     return h
 
 
+ATOMS = ['a', '@', '\\x40', '\\100', '\\\\', "\\'", '\\n', 'n', '@n@']
+
+
+def ob_atoms(natoms):
+    """string literals assembled from escape ATOMS (so that every special character also appears in its escaped spellings: \\x40 and \\100 are '@'), in all four
+    literal kinds: the simplification of triple-quoted / f-strings must go by what the string DENOTES, not by how it is spelled"""
+    def h():
+        body = ''.join(ATOMS[choose(len(ATOMS), 'atom%d' % i)] for i in range(natoms))
+        kind = choose(4, 'kind')
+        if kind >= 2 and body.endswith("'"): body += 'a'
+        lit = ["'" + body + "'", "f'" + body + "'", TQ + body + TQ, 'f' + TQ + body + TQ][kind]
+        run_checks('n = 1\nx = ' + lit + '\n', narrow=True)
+    return h
+
+
 def obligations(tier):
     q = tier == 'quick'
     out = []
@@ -231,6 +247,8 @@ def obligations(tier):
     for fname in ('files', 'f'):
         out.append(Obligation('shapes[%s]' % fname, ob_shapes(fname, 3 if (fname == 'files' or not q) else 2), dict(function=fname, arguments='2-3 of {plain, f-string, triple-quoted, f-string with @0@, nested array}', layout='one line | one per line',
                               trailing_comma='both', comment='after any argument or none', configuration='max_line_length, sort_files, simplify_string_literals, no_single_comma_function symbolic; the rest default'), labels=('done',), max_paths=5000000, classify=classify))
+    for n in ((2, 3) if q else (2, 3, 4)):
+        out.append(Obligation('atoms[%d]' % n, ob_atoms(n), dict(atoms=n, alphabet=' '.join(ATOMS), kinds="'..' f'..' '''..''' f'''..'''", configuration='narrow (see shapes)'), labels=('done',), optional_labels=('source-rejected',), max_paths=5000000, classify=classify))
     for k in range(len(TEMPLATES)):
         for n in ((1, 2) if q else (1, 2, 3)):
             out.append(Obligation('template[%d,%d]' % (k, n), ob_template(k, n), dict(template=TEMPLATES[k]('<BODY>'), body_len=n, alphabet=SB, configuration='fully symbolic'),
